@@ -45,7 +45,7 @@ def num(x, numtype):
         return float(x)
     if numtype == "npfloat":
         return np.float64(float(x))
-    if numtype == "int":
+    if numtype in ("int", "fracint"):
         x = F(x)
         return int(x) if x.denominator == 1 else x
     raise ValueError(numtype)
@@ -67,7 +67,7 @@ def mk_points(P, numtype, ptkind="auto"):
         return None
     if not isinstance(P[0], (list, tuple)):
         return [num(x, numtype) for x in P]
-    if numtype in ("frac", "int"):
+    if numtype in ("frac", "int", "fracint"):
         arr = np.empty((len(P), len(P[0])), dtype=object)
         for i, pt in enumerate(P):
             for j, c in enumerate(pt):
@@ -100,7 +100,8 @@ def nurbs():
 
 def mk_curve(U, P, W, numtype):
     m = nurbs()
-    kv = nums(U, numtype)
+    # "fracint": Fraction knots with Python ints for integral control points / weights (the other exact class of C16)
+    kv = nums(U, "frac" if numtype == "fracint" else numtype)
     c = m.Curve(kv, mk_points(P, numtype), None if W is None else nums(W, numtype))
     return c
 
